@@ -22,7 +22,7 @@ TECH = {
     "C11": "MIR guard analysis + call-graph non-reachability + canon merge table",
     "C12": "MIR def-use order pins (chain order, start indices) + dispatch tables; previous/current side-discipline lint over MIR provenance",
     "C13": "path-sensitive pairing (append <-> state) + comparison normal form of the size limit + must-write cursor rule; previous/current side-discipline lint over MIR provenance",
-    "C14": "MIR must-pass chain with propagated errors, dominance, type-derived check_reference obligations, Cargo feature facts",
+    "C14": "MIR must-pass chain with propagated errors, dominance, type-derived check_reference obligations, Cargo feature facts, compile-fail witness (E0308) with compiling twin for the phantom-typed CID",
     "C15": "comparison normal form + path ordering (swap then check) on DataVerifier::merge",
     "C16": "control-skeleton tables of the instruction executors + scoping pairings",
     "C17": "sibling agreement of apply_lambda_with_tetraplets impls + argument-position flow",
